@@ -18,7 +18,7 @@ structure G2.ColIsometry (G : G2) : Prop where
   orth : G.g00 * G.g01 + G.g10 * G.g11 = 0
 
 theorem assemble_colIsometry {a b : GQ} {c s : Rat} {ph : GQ} (h : CSP a b c s ph) (right real : Bool)
-    (hreal : real = true → a.im = 0 ∧ b.im = 0) : (assemble right real c s ph).ColIsometry := by
+    (hreal : real = true → ph.im = 0) : (assemble right real c s ph).ColIsometry := by
   have hu := h.unit
   have hp := h.phn
   cases right <;> cases real <;> simp only [assemble, Bool.not_true, Bool.not_false, if_true, if_false,
@@ -26,13 +26,13 @@ theorem assemble_colIsometry {a b : GQ} {c s : Rat} {ph : GQ} (h : CSP a b c s p
   · refine ⟨by simp, by simp, GQ.ext ?_ ?_, GQ.ext ?_ ?_, GQ.ext ?_ ?_⟩ <;> simp <;>
       first | ring1 | linear_combination hu | linear_combination hu + (s*s) * hp | linear_combination hu + (c*c) * hp
             | linear_combination (s*s + c*c) * hp + hu
-  · obtain ⟨hi, hr⟩ := ph_real_sq h (hreal rfl).1 (hreal rfl).2
+  · obtain ⟨hi, hr⟩ := ph_real_sq h (hreal rfl)
     refine ⟨by simp, by simp [hi], GQ.ext ?_ ?_, GQ.ext ?_ ?_, GQ.ext ?_ ?_⟩ <;> simp [hi] <;>
       first | ring1 | linear_combination hu | linear_combination hu + (s*s) * hr | linear_combination hu + (c*c) * hr
   · refine ⟨by simp, by simp, GQ.ext ?_ ?_, GQ.ext ?_ ?_, GQ.ext ?_ ?_⟩ <;> simp <;>
       first | ring1 | linear_combination hu | linear_combination hu + (s*s) * hp | linear_combination hu + (c*c) * hp
             | linear_combination (s*s + c*c) * hp + hu
-  · obtain ⟨hi, hr⟩ := ph_real_sq h (hreal rfl).1 (hreal rfl).2
+  · obtain ⟨hi, hr⟩ := ph_real_sq h (hreal rfl)
     refine ⟨by simp, by simp [hi], GQ.ext ?_ ?_, GQ.ext ?_ ?_, GQ.ext ?_ ?_⟩ <;> simp [hi] <;>
       first | ring1 | linear_combination hu | linear_combination hu + (s*s) * hr | linear_combination hu + (c*c) * hr
 
@@ -129,16 +129,10 @@ theorem rotateCols_rowDot {M : Mat} {m n : Nat} (hM : Rect M m n) {G : G2} (hG :
 /-- the matrix computed in the exact regime by `givens_matrix_elements` is column-isometric -/
 theorem givensElems_colIsometry (tol : Rat) (htol : 0 < tol) (a b : GQ) (right : Bool) (G : G2)
     (hexa : small tol a = true → a = 0) (hexb : small tol b = true → b = 0)
-    (hreal : realish tol a b = true → a.im = 0 ∧ b.im = 0)
+    (hreal : RealExact tol a b)
     (h : givensElems tol a b right = .ok G) : G.ColIsometry := by
-  unfold givensElems at h
-  cases hC : cosSinPhase tol a b with
-  | error e => simp [hC, bind, Except.bind] at h
-  | ok t =>
-    obtain ⟨c, s, ph⟩ := t
-    simp only [hC, bind, Except.bind] at h
-    injection h with h; subst h
-    exact assemble_colIsometry (cosSinPhase_spec htol hexa hexb hC) right _ hreal
+  obtain ⟨c, s, ph, hC, hr, rfl⟩ := givensElems_inv hreal h
+  exact assemble_colIsometry (cosSinPhase_spec htol hexa hexb hC) right _ hr
 
 /-- all inner products of the first `m` rows agree -/
 def SameGram (M M' : Mat) (m n : Nat) : Prop :=
